@@ -180,9 +180,20 @@ public:
 	       }
 	     return true;
 	   });
+	errno = 0;
 	outfile.close();
 	if (!ok)
 	  return false;
+	if (!outfile)
+	  {
+	    // The final part of the body is written when the file is
+	    // closed, and that can fail too (e.g. when the disc is full).
+	    std::cerr << output_body_file << ": failed to write the file";
+	    if (errno)
+	      std::cerr << ": " << strerror(errno);
+	    std::cerr << "\n";
+	    return false;
+	  }
 	const string inf_file_name = output_body_file + ".inf";
 	if (!create_inf_file(inf_file_name, crc.get(), entry))
 	  {
